@@ -1,6 +1,219 @@
 import ScsiVerif.Lemmas.EncodeCompat
+import ScsiVerif.Props.C02
+import ScsiVerif.Props.C05
+import ScsiVerif.Std.DataIn
 import ScsiVerif.Model.Formats.Encode
 import ScsiVerif.Model.Formats.Decode
+/-!
+# C06 — parameter data survives a build/parse round trip and read-modify-write
+
+The builders (`Enc.*`) and parsers (`Dec.*`) apply the same regenerated layout tables through
+`encode_dict` / `decode_bits`.  For every table that is well formed and conforms to the standard's
+block (`C05.all_parameter_tables_conform`, `all_two_way_tables_conform` below):
+
+* `reparse_built`      — dict → bytes → dict returns the values supplied;
+* `rebuild_canonical`  — bytes → dict → bytes reproduces a canonical structure byte for byte;
+* `rmw_only_field_bits`— two structures whose values differ in one field agree in every bit outside
+                          that field: reading, changing one field and writing back changes only
+                          that field's bits (`swp_*` is the `tools/swp.py` instance).
+-/
 namespace C06
-theorem placeholder : True := trivial
+open Conv PVal Std DataCompat
+
+theorem valueD_congr (L : Nat) (fs : List DField) (v v' : Vals) (h : ∀ g ∈ fs, v g.key = v' g.key) :
+    valueD L fs v = valueD L fs v' := by
+  unfold valueD
+  induction fs with
+  | nil => rfl
+  | cons g fs ih =>
+    simp only [List.foldr_cons]
+    rw [h g (by simp), ih (fun x hx => h x (by simp [hx]))]
+
+theorem encodeD_congr (L : Nat) (fs : List DField) (v v' : Vals) (h : ∀ g ∈ fs, v g.key = v' g.key) :
+    encodeD L fs v = encodeD L fs v' := by
+  unfold encodeD; rw [valueD_congr L fs v v' h]
+
+theorem dictGet?_expected (lay : Layout) (hk : lay.Pairwise (fun a b => a.1 ≠ b.1)) (v : Vals) (k : String) (f : FieldSpec)
+    (hg : layoutGet? lay k = some f) : dictGet? (expected lay v) k = some (expVal f (v k)) := by
+  induction lay with
+  | nil => simp [layoutGet?] at hg
+  | cons x xs ih =>
+    unfold layoutGet? at hg
+    unfold dictGet? expected
+    simp only [List.map_cons, List.find?_cons] at hg ⊢
+    by_cases hx : x.1 = k
+    · have : (x.1 == k) = true := by simpa using hx
+      simp only [this] at hg ⊢
+      simp at hg
+      simp [hg, hx]
+    · have : (x.1 == k) = false := by simpa using hx
+      simp only [this] at hg ⊢
+      rw [List.pairwise_cons] at hk
+      have := ih hk.2 (by unfold layoutGet?; exact hg)
+      unfold dictGet? expected at this
+      exact this
+
+/-- every field of the standard's block has an entry in the library table (then nothing is lost
+    when a response is parsed and rebuilt) -/
+def covers (lay : Layout) (b : Block) : Bool := b.rel.all (fun g => (layoutGet? lay g.key).isSome)
+
+theorem expected_inRange (b : Block) (lay : Layout) (hOK : C05.pairOK (b, lay) = true) (v : Vals)
+    (hr : InRangeD b.rel v) : InRange lay (expected lay v) := by
+  unfold C05.pairOK at hOK
+  simp only [Bool.and_eq_true] at hOK
+  intro kv hkv m off hg
+  obtain ⟨x, hx, rfl⟩ := List.mem_map.mp hkv
+  have hget := wf_get hOK.1 hx
+  simp only at hg
+  rw [hget] at hg
+  cases hg' : x.2 with
+  | blob u o l => rw [hg'] at hg; cases hg
+  | bits m' off' =>
+    rw [hg'] at hg
+    cases hg
+    obtain ⟨g, hgm, hgk, _, hw⟩ := compat_entry hOK.2 (show (x.1, FieldSpec.bits m off) ∈ lay by rw [← hg']; exact hx)
+    refine ⟨v x.1, by simp [expVal], ?_⟩
+    rw [hw, ← hgk]
+    exact hr g hgm
+
+theorem expected_keysDistinct (lay : Layout) (hk : lay.Pairwise (fun a b => a.1 ≠ b.1)) (v : Vals) :
+    KeysDistinct (expected lay v) := by
+  unfold KeysDistinct expected
+  rw [List.pairwise_map]
+  exact hk
+
+/-- **bytes → dict → bytes**: parsing the standard's structure and rebuilding what was parsed
+reproduces it byte for byte (for every block all of whose fields the library's table knows). -/
+theorem rebuild_canonical (b : Block) (lay : Layout) (hOK : C05.pairOK (b, lay) = true) (hcov : covers lay b = true)
+    (v : Vals) (hr : InRangeD b.rel v) :
+    ∃ d, decodeBits (b.enc v) lay [] = .ok d ∧ encodeDict d lay (zeros b.len) = .ok (b.enc v) := by
+  have hOK' := hOK
+  unfold C05.pairOK at hOK
+  simp only [Bool.and_eq_true] at hOK
+  have hk := wf_keys hOK.1
+  refine ⟨expected lay v, ?_, ?_⟩
+  · have := compatible_sound lay b.rel b.len hOK.2 v hr []
+    rw [List.append_nil] at this
+    exact this
+  · rw [encode_sound lay b.rel b.len hOK.1 hOK.2 _ (expected_inRange b lay hOK' v hr) (expected_keysDistinct lay hk v)]
+    congr 1
+    unfold Block.enc
+    apply encodeD_congr
+    intro g hg
+    unfold covers at hcov
+    simp only [List.all_eq_true] at hcov
+    have := hcov g hg
+    cases hl : layoutGet? lay g.key with
+    | none => simp [hl] at this
+    | some f =>
+      obtain ⟨m, off, rfl, _⟩ := wf_entry hOK.1 (layoutGet?_mem hl)
+      unfold valsFor
+      rw [hl, dictGet?_expected lay hk v g.key _ hl]
+      rfl
+
+/-- **dict → bytes → dict**: building from the values `d` supplies and parsing the result returns,
+for every key of the table, the value supplied (0 for keys not supplied). -/
+theorem reparse_built (b : Block) (lay : Layout) (hOK : C05.pairOK (b, lay) = true) (d : Dict)
+    (hr : InRange lay d) (hk : KeysDistinct d) :
+    ∃ r out, encodeDict d lay (zeros b.len) = .ok r ∧ decodeBits r lay [] = .ok out ∧
+      (∀ k m off n, layoutGet? lay k = some (.bits m off) → (k, Val.int n) ∈ d → dictGet? out k = some (.int n)) ∧
+      (∀ k m off, layoutGet? lay k = some (.bits m off) → (∀ kv ∈ d, kv.1 ≠ k) → dictGet? out k = some (.int 0)) := by
+  unfold C05.pairOK at hOK
+  simp only [Bool.and_eq_true] at hOK
+  obtain ⟨cdb, out, h1, _, h3, h4, h5, _⟩ := C02.decode_encode lay b.len hOK.1 d hr hk
+  exact ⟨cdb, out, h1, h3, h4, h5⟩
+
+/-- **read-modify-write changes only that field's bits**: two structures of the same block whose
+values differ only in field `g` agree in every bit outside `g`. -/
+theorem rmw_only_field_bits (b : Block) (hf : formatOK b.len b.rel = true) (v v' : Vals)
+    (hr : InRangeD b.rel v) (hr' : InRangeD b.rel v') (g : DField) (hg : g ∈ b.rel)
+    (hsame : ∀ g' ∈ b.rel, g' ≠ g → v g'.key = v' g'.key) (i : Nat)
+    (hi : ¬ (g.lsb b.len ≤ i ∧ i < g.lsb b.len + g.width)) :
+    (baToInt (b.enc v)).testBit i = (baToInt (b.enc v')).testBit i := by
+  unfold Block.enc
+  rw [(encodeD_facts b.len b.rel hf v hr).2.2, (encodeD_facts b.len b.rel hf v' hr').2.2]
+  have hok : ∀ (w : Vals), InRangeD b.rel w → ∀ t ∈ termsD b.len b.rel w, t.ok := by
+    intro w hw t ht
+    obtain ⟨x, hx, rfl⟩ := List.mem_map.mp ht
+    exact hw x hx
+  by_cases hB : ∃ g' ∈ b.rel, g'.lsb b.len ≤ i ∧ i < g'.lsb b.len + g'.width
+  · obtain ⟨g', hg', hin⟩ := hB
+    have hne : g' ≠ g := by
+      intro e; subst e; exact hi hin
+    rw [xorAll_inside _ (hok v hr) (termsD_disj hf v) ⟨g'.lsb b.len, g'.width, v g'.key⟩ (List.mem_map.mpr ⟨g', hg', rfl⟩) i hin]
+    rw [xorAll_inside _ (hok v' hr') (termsD_disj hf v') ⟨g'.lsb b.len, g'.width, v' g'.key⟩ (List.mem_map.mpr ⟨g', hg', rfl⟩) i hin]
+    simp only [hsame g' hg' hne]
+  · have hout : ∀ (w : Vals), ∀ t ∈ termsD b.len b.rel w, ¬ t.inRange i := by
+      intro w t ht hti
+      obtain ⟨x, hx, rfl⟩ := List.mem_map.mp ht
+      exact hB ⟨x, hx, hti⟩
+    rw [xorAll_outside _ (hok v hr) i (hout v), xorAll_outside _ (hok v' hr') i (hout v')]
+
+
+/-! ## the two-way structures of the library (kernel-decided on the regenerated tables) -/
+
+/-- (standard block, library table) of every structure the library both builds and parses -/
+def twoWay : List (Block × Layout) := [
+  (readCapacity10, Gen.ReadCapacity10_datain_bits), (readCapacity16, Gen.ReadCapacity16_datain_bits),
+  (lbaStatusDescriptor, Gen.GetLBAStatus_datain_bits), (lunEntry, Gen.ReportLuns_datain_bits),
+  (tpgDescriptor, Gen.ReportTargetPortGroups_tpgd_bits), (rtpgExtHeader, Gen.ReportTargetPortGroups_ext_hdr_bits),
+  (priorityDescriptor, Gen.ReportPriority_data_bits),
+  (elementStatusHeader, Gen.ReadElementStatus_datain_bits), (elementStatusPage, Gen.ReadElementStatus_element_status_page_bits),
+  (elementDescriptor, Gen.ReadElementStatus_element_status_descriptor_bits),
+  (elementDescriptor, Gen.ReadElementStatus_import_export_descriptor_bits),
+  (vpdLbp, Gen.Inquiry_logical_block_provisioning_bits), (vpdReferrals, Gen.Inquiry_referrals_bits),
+  (vpdExtended, Gen.Inquiry_extended_bits), (designationDescriptor, Gen.Inquiry_designator_bits),
+  (naaIeeeExtended, Gen.Inquiry_naa_ieee_extended_bits), (naaLocallyAssigned, Gen.Inquiry_naa_locally_assigned_bits),
+  (naaIeeeRegistered, Gen.Inquiry_naa_ieee_registered_bits),
+  (naaIeeeRegisteredExtended, Gen.Inquiry_naa_ieee_registered_extended_bits),
+  (relativePortDesignator, Gen.Inquiry_relative_port_bits), (targetPortGroupDesignator, Gen.Inquiry_target_portal_group_bits),
+  (logicalUnitGroupDesignator, Gen.Inquiry_logical_unit_group_bits),
+  (modeHeader6, Gen.MODESENSE6_mode_parameter_header_bits), (modeHeader10, Gen.MODESENSE10_mode_parameter_header_bits),
+  (modePage0Header, Gen.MODESENSE6_page_zero_bits), (modeSubPageHeader, Gen.MODESENSE6_sub_page_bits),
+  (modeControl, Gen.MODESENSE6_control_bits), (modeControlExt, Gen.MODESENSE6_control_extension_1_bits),
+  (modeDisconnect, Gen.MODESENSE6_disconnect_reconnect_bits), (modeElementAddress, Gen.MODESENSE6_element_address_bits),
+  (modeControl, Gen.MODESENSE10_control_bits), (modeControlExt, Gen.MODESENSE10_control_extension_1_bits),
+  (modeDisconnect, Gen.MODESENSE10_disconnect_reconnect_bits), (modeElementAddress, Gen.MODESENSE10_element_address_bits),
+  (transportIdHeader, Gen.PersistentReserveInReadFullStatus_transport_id_bits)]
+
+/-- every two-way table is a well-formed bit-field table sitting on the standard's block -/
+theorem all_two_way_tables_conform : twoWay.all C05.pairOK = true := by decide +kernel
+
+/-- the blocks whose every field the library reports (nothing is lost by parse → rebuild) -/
+def fullyCovered : List (Block × Layout) := [
+  (readCapacity10, Gen.ReadCapacity10_datain_bits), (readCapacity16, Gen.ReadCapacity16_datain_bits),
+  (lbaStatusDescriptor, Gen.GetLBAStatus_datain_bits), (lunEntry, Gen.ReportLuns_datain_bits),
+  (tpgDescriptor, Gen.ReportTargetPortGroups_tpgd_bits), (priorityDescriptor, Gen.ReportPriority_data_bits),
+  (relativePortDesignator, Gen.Inquiry_relative_port_bits), (targetPortGroupDesignator, Gen.Inquiry_target_portal_group_bits),
+  (logicalUnitGroupDesignator, Gen.Inquiry_logical_unit_group_bits),
+  (modeControl, Gen.MODESENSE6_control_bits), (modeControlExt, Gen.MODESENSE6_control_extension_1_bits),
+  (modeDisconnect, Gen.MODESENSE6_disconnect_reconnect_bits), (modeElementAddress, Gen.MODESENSE6_element_address_bits),
+  (modeControl, Gen.MODESENSE10_control_bits), (modeControlExt, Gen.MODESENSE10_control_extension_1_bits),
+  (modeDisconnect, Gen.MODESENSE10_disconnect_reconnect_bits), (modeElementAddress, Gen.MODESENSE10_element_address_bits),
+  (transportIdHeader, Gen.PersistentReserveInReadFullStatus_transport_id_bits)]
+
+theorem fully_covered_ok : fullyCovered.all (fun x => C05.pairOK x && covers x.2 x.1) = true := by decide +kernel
+
+/-! ## the `tools/swp.py` instance: the Control mode page -/
+
+/-- READ CAPACITY(16), as an instance: rebuilding the parsed response reproduces it -/
+theorem readCapacity16_rebuild (v : Vals) (hr : InRangeD readCapacity16.rel v) :
+    ∃ d, decodeBits (readCapacity16.enc v) Gen.ReadCapacity16_datain_bits [] = .ok d ∧
+      encodeDict d Gen.ReadCapacity16_datain_bits (zeros 32) = .ok (readCapacity16.enc v) :=
+  rebuild_canonical readCapacity16 _ (by decide +kernel) (by decide +kernel) v hr
+
+/-- the Control mode page body: parse → rebuild is the identity on canonical pages -/
+theorem control_page_rebuild (v : Vals) (hr : InRangeD modeControl.rel v) :
+    ∃ d, decodeBits (modeControl.enc v) Gen.MODESENSE6_control_bits [] = .ok d ∧
+      encodeDict d Gen.MODESENSE6_control_bits (zeros 10) = .ok (modeControl.enc v) :=
+  rebuild_canonical modeControl _ (by decide +kernel) (by decide +kernel) v hr
+
+/-- flipping SWP (Control mode page byte 4, bit 3) and writing the page back leaves every other bit
+of the page body as the device reported it -/
+theorem swp_changes_only_swp (v v' : Vals) (hr : InRangeD modeControl.rel v) (hr' : InRangeD modeControl.rel v')
+    (hsame : ∀ g' ∈ modeControl.rel, g' ≠ (⟨"swp", 2, 3, 1⟩ : DField) → v g'.key = v' g'.key) (i : Nat) (hi : i ≠ 59) :
+    (baToInt (modeControl.enc v)).testBit i = (baToInt (modeControl.enc v')).testBit i :=
+  rmw_only_field_bits modeControl (by decide +kernel) v v' hr hr' ⟨"swp", 2, 3, 1⟩ (by decide) hsame i
+    (by simp [DField.lsb, modeControl]; omega)
+
 end C06
